@@ -33,9 +33,13 @@ def handler_arm(kind, ret, clobber=True):
         body += _intc_const_arm(0) + [A.str_(0, 0, 0 if kind == 'irq' else 4)]            # acknowledge: de-asserts the line
     if kind == 'dabt':
         body += _intc_const_arm(0) + [A.str_(0, 0, 8)]                                     # supervisor call: "grant the faulting access"
+    if kind == 'und' and ret == 'patch_retry':
+        body += _intc_const_arm(0) + [A.str_(0, 0, 12)]                                    # supervisor call: "patch the instruction into a NOP"
     if clobber:
         body += [A.mov_imm(1, 0xAA), A.dp_imm('mov', 2, 0, 0, s=1), A.dp_imm('mvn', 3, 0, 0, s=1), A.mov_imm(12, 0x55)]
     base = ret.rstrip('8')
+    if base == 'patch_retry':
+        return [A.push(0x100F)] + body + [A.pop(0x100F), A.subs_pc_lr(2)]                  # retry the (16-bit Thumb) instruction
     if base in ('subs', 'movs'):
         w = [A.push(0x100F)] + body + [A.pop(0x100F)]
         w.append(A.movs_pc_lr() if (base == 'movs' and adj == 0) else A.subs_pc_lr(adj))
@@ -53,11 +57,13 @@ def handler_thumb(kind, ret, clobber=True):
     mode = MODE_OF[kind]
     adj = {'irq': 4, 'fiq': 4, 'svc': 0, 'und': 0, 'dabt': 8}[kind]
     body = []
-    if kind in ('irq', 'fiq', 'dabt'):
-        body += [T.mov_imm(0, 1), T.shift_imm(0, 0, 0, 18), T.ldst_imm('str', 0, 0, {'irq': 0, 'fiq': 1, 'dabt': 2}[kind])]
+    if kind in ('irq', 'fiq', 'dabt') or (kind == 'und' and ret == 'patch_retry'):
+        body += [T.mov_imm(0, 1), T.shift_imm(0, 0, 0, 18), T.ldst_imm('str', 0, 0, {'irq': 0, 'fiq': 1, 'dabt': 2, 'und': 3}[kind])]
     if clobber:
         body += [T.mov_imm(1, 0xAA), T.mov_imm(2, 0), T.dp(15, 3, 2)]
     base = ret.rstrip('8')
+    if base == 'patch_retry':
+        return [T.push(0x0F)] + body + [T.pop(0x0F), T.subs_pc_lr(2)]
     if base in ('subs', 'movs'):
         return [T.push(0x0F)] + body + [T.pop(0x0F), T.subs_pc_lr(adj)]
     if base == 'srs_rfe':
